@@ -2,6 +2,7 @@
 
 import os
 import pprint
+from contextlib import nullcontext
 import sys
 import weakref
 
@@ -511,16 +512,24 @@ class Solver(object, metaclass=SolverMetaclass):
         parallel = self._rec_mgr._check_parallel() if system.comm.size > 1 else False
         local = parallel and not self._rec_mgr._check_gather()
 
-        if self.recording_options['record_outputs']:
-            data['output'] = system._retrieve_data_of_kind(filt, 'output', vec_name, local)
+        # nonlinear solver iterations run with the vectors in their scaled state: record physical values
+        if vec_name == 'nonlinear':
+            ctx = system._unscaled_context(outputs=[system._outputs], residuals=[system._residuals])
+        else:
+            ctx = nullcontext()
 
-        if self.recording_options['record_inputs']:
-            data['input'] = system._retrieve_data_of_kind(filt, 'input', vec_name, local)
+        with ctx:
+            if self.recording_options['record_outputs']:
+                data['output'] = system._retrieve_data_of_kind(filt, 'output', vec_name, local)
 
-        if self.recording_options['record_solver_residuals']:
-            data['residual'] = system._retrieve_data_of_kind(filt, 'residual', vec_name, local)
+            if self.recording_options['record_inputs']:
+                data['input'] = system._retrieve_data_of_kind(filt, 'input', vec_name, local)
 
-        self._rec_mgr.record_iteration(self, data, metadata)
+            if self.recording_options['record_solver_residuals']:
+                data['residual'] = system._retrieve_data_of_kind(filt, 'residual', vec_name, local)
+
+            # (the retrieved values are views of the vectors: write them while still unscaled)
+            self._rec_mgr.record_iteration(self, data, metadata)
 
     def cleanup(self):
         """
